@@ -195,7 +195,9 @@ class HedValidator:
                                                                include_groups=1)
         all_definition_groups = [group for sub_group in definition_groups for group in sub_group.get_all_groups()]
         for group in hed_string_obj.get_all_groups():
-            is_definition = group in all_definition_groups
+            # Membership by identity: a group outside a definition that merely has the same content as a group inside one
+            # is not part of the definition.
+            is_definition = any(group is def_group for def_group in all_definition_groups)
             for hed_tag in group.tags():
                 if not self._definitions_allowed and hed_tag.short_base_tag == DefTagNames.DEFINITION_KEY:
                     validation_issues += error_reporter.ErrorHandler.format_error(
